@@ -261,22 +261,28 @@ func observe(w *world.World, cur wld) (obs, error) {
 		if !have[name] {
 			continue
 		}
-		sw := cfgnf.ServerWeights(raw, name)
+		sw := cfgnf.ServerWeightsAll(raw, name)
+		total := 0
+		for _, ws := range sw {
+			total += len(ws)
+		}
 		b := backObs{S: name, Grp: [][]int{}}
 		used := 0
+		nth := map[int]int{} // a Service referenced twice has its servers twice: the k-th reference reads the k-th occurrence
 		for _, br := range rt.Backs {
 			g := []int{}
 			for n := 1; n <= br.S && br.S < 8; n++ { // s8 has no ready endpoint, s9 does not exist
-				if wv, ok := sw[epAddr(rt.Ns, br.S, n)+":8080"]; ok {
-					g = append(g, wv)
+				if ws := sw[epAddr(rt.Ns, br.S, n)+":8080"]; nth[br.S] < len(ws) {
+					g = append(g, ws[nth[br.S]])
 					used++
 				} else {
 					g = append(g, -1)
 				}
 			}
+			nth[br.S]++
 			b.Grp = append(b.Grp, g)
 		}
-		b.Xtr = len(sw) - used
+		b.Xtr = total - used
 		b.Bal = "roundrobin"
 		for _, sec := range raw.Sections {
 			if sec.Kind == "backend" && sec.Name == name {
